@@ -9,6 +9,7 @@ package gen
 
 import (
 	"encoding/binary"
+	"fmt"
 	"io"
 	"net"
 	"sync/atomic"
@@ -44,7 +45,8 @@ type Proto struct {
 	Slow bool
 	// NoTrailing is true if the default matcher REJECTS a valid message that
 	// is followed by further bytes in the same prefetch buffer (dns over tcp,
-	// rdp, winbox, openvpn over tcp, wireguard, quic). For the other stream
+	// rdp, openvpn over tcp, wireguard, quic; winbox too, except that its rare
+	// two-chunk messages tolerate a few extra bytes). For the other stream
 	// matchers arbitrary trailing data may follow a Valid() message.
 	NoTrailing bool
 	// Matchers builds provisioned matchers, index 0 is the default
@@ -59,6 +61,48 @@ type Proto struct {
 
 // All returns the descriptors of every shipped connection matcher.
 func All() []*Proto {
+	ps := allProtos()
+	for _, p := range ps {
+		harden(p)
+	}
+	return ps
+}
+
+// MutatePanics reports how many times a protocol specific Mutate function of
+// this package panicked (and was replaced by GenericMutate) and the message of
+// the last such panic. It is expected to stay at zero.
+func MutatePanics() (int64, string) {
+	s, _ := lastMutatePanic.Load().(string)
+	return mutatePanics.Load(), s
+}
+
+var (
+	mutatePanics    atomic.Int64
+	lastMutatePanic atomic.Value
+)
+
+// harden makes p.Mutate total: a bug in a structure-aware mutation must not
+// take a simulation worker down, it degrades to a generic mutation.
+func harden(p *Proto) {
+	inner := p.Mutate
+	name := p.Name
+	p.Mutate = func(r Rand, msg []byte, tcp bool) (out []byte) {
+		defer func() {
+			if e := recover(); e != nil {
+				mutatePanics.Add(1)
+				lastMutatePanic.Store(fmt.Sprintf("%s: %v", name, e))
+				out = GenericMutate(r, msg)
+			}
+		}()
+		out = inner(r, msg, tcp)
+		if out == nil {
+			out = []byte{}
+		}
+		return out
+	}
+}
+
+func allProtos() []*Proto {
 	return []*Proto{
 		protoTLS(),
 		protoHTTP(),
